@@ -727,12 +727,18 @@ fn uom_section(rep: &mut Report, run: &mut Runner, opts: &Opts, rng: &mut Rng) {
     // every ordered pair of units x magnitudes
     for a in us.iter() {
         for b in us.iter() {
-            for (k, m) in mags.iter().enumerate() {
-                let xv = match k % 5 {
+            let mut xs: Vec<CelValue> = mags
+                .iter()
+                .enumerate()
+                .map(|(k, m)| match k % 5 {
                     3 if m.fract() == 0.0 && m.abs() < 9e18 => CelValue::Int(*m as i64),
                     4 if m.fract() == 0.0 && *m >= 0.0 && m.abs() < 1.8e19 => CelValue::UInt(*m as u64),
                     _ => CelValue::Float(*m),
-                };
+                })
+                .collect();
+            // integer magnitudes at the edges of their types (a uint above the int range is still its own magnitude)
+            xs.extend([CelValue::UInt(u64::MAX), CelValue::UInt(13_835_058_055_282_163_712), CelValue::UInt(1 << 63), CelValue::Int(i64::MAX), CelValue::Int(i64::MIN)]);
+            for xv in xs.into_iter() {
                 let x = num_f64(&xv);
                 let t = if a.cat == b.cat { tol(x, a, b) } else { 0.0 };
                 let got = push_case(rep, &mut cases, run, &xv, a.canon, b.canon, t);
